@@ -97,14 +97,18 @@ Match(e, o) ==
          /\ SameBag(e.v, [i \in 1..Len(e.v) |-> <<o.v[2 * i - 1].v, o.v[2 * i].v>>])
     [] e.t = "pendext" ->
          (* XPENDING extended rows [id, consumer, idle ms, deliveries]; e.v = <<id, consumer, deliveries>> triples *)
+         (* pick >= 0: any `pick` distinct rows of e.v, in any order *)
          /\ o.t = "arr"
-         /\ Len(o.v) = Len(e.v)
+         /\ Len(o.v) = (IF e.pick >= 0 THEN e.pick ELSE Len(e.v))
          /\ \A i \in 1..Len(o.v) :
               /\ o.v[i].t = "arr" /\ Len(o.v[i].v) = 4
               /\ o.v[i].v[1].t = "bulk" /\ o.v[i].v[2].t = "bulk" /\ o.v[i].v[4].t = "int"
               /\ o.v[i].v[3].t = "int" /\ IsLooseInt(o.v[i].v[3].v) /\ ~ParseBig(o.v[i].v[3].v).neg
          /\ LET got == [i \in 1..Len(o.v) |-> <<o.v[i].v[1].v, o.v[i].v[2].v, o.v[i].v[4].v>>]
-            IN IF e.ordered THEN got = e.v ELSE SameBag(e.v, got)
+            IN IF e.pick >= 0
+               THEN /\ \A i \in 1..Len(got) : \E j \in 1..Len(e.v) : e.v[j] = got[i]
+                    /\ \A i, j \in 1..Len(got) : i # j => got[i] # got[j]
+               ELSE IF e.ordered THEN got = e.v ELSE SameBag(e.v, got)
     [] e.t = "pendcons" ->
          (* XPENDING summary consumer list: pairs [name, count] in any order; e.v = <<name, decimal count>> pairs *)
          /\ o.t = "arr"
